@@ -263,6 +263,7 @@ type VerifPolicyNode[K comparable, V any] struct {
 	Queue  int // 0 window, 1 probation, 2 protected
 	Weight uint32
 	Value  V
+	Alive  bool
 }
 
 // VerifPolicyNodes lists every node linked in the eviction policy, queue by queue in queue order.
@@ -275,13 +276,13 @@ func VerifPolicyNodes[K comparable, V any](cc *Cache[K, V]) []VerifPolicyNode[K,
 	}
 	p := c.evictionPolicy
 	for n := range p.window.All() {
-		out = append(out, VerifPolicyNode[K, V]{n.Key(), 0, n.Weight(), n.Value()})
+		out = append(out, VerifPolicyNode[K, V]{n.Key(), 0, n.Weight(), n.Value(), n.IsAlive()})
 	}
 	for n := range p.probation.All() {
-		out = append(out, VerifPolicyNode[K, V]{n.Key(), 1, n.Weight(), n.Value()})
+		out = append(out, VerifPolicyNode[K, V]{n.Key(), 1, n.Weight(), n.Value(), n.IsAlive()})
 	}
 	for n := range p.protected.All() {
-		out = append(out, VerifPolicyNode[K, V]{n.Key(), 2, n.Weight(), n.Value()})
+		out = append(out, VerifPolicyNode[K, V]{n.Key(), 2, n.Weight(), n.Value(), n.IsAlive()})
 	}
 	return out
 }
